@@ -22,7 +22,10 @@ RULE = (
     "codeword set); all pairs of library codewords for the minimum distance; every codeword x every single-bit error "
     "through check_and_correct / correct_numpy_array for the five Hamming codes; every codeword x all 120 double errors "
     "for Hamming(16,11,4).  A case is one (code, word) or (code, codeword, error pattern); every case is distinct by "
-    "construction; non-trivial = words that are not codewords, codewords of non-zero messages, and all error patterns."
+    "construction; non-trivial = words that are not codewords, codewords of non-zero messages, and all error patterns.  "
+    "Sub-check 'reuse' (added after seeded change C06-2): directed and Hypothesis-drawn call histories in which a receiver "
+    "reuses one bitarray as its buffer and words repeat, through check_and_correct and correct_numpy_array; distinct by hash, "
+    "non-trivial = a word is presented again after the buffer was reused."
 )
 ASSUMPTIONS = [
     "reference = systematic encoders of the (shortened/extended) cyclic codes with g(x) = x^3+x+1, x^4+x+1, x^5+x^2+1, "
@@ -288,12 +291,120 @@ def drv_double_error(ctx: Ctx, sub: SubCheck):
     ctx.tally.exhaustive[sub.name] = True
 
 
+# ---------------------------------------------------------------------------------------------- buffer-reuse histories
+
+
+def _nearest(code, w):
+    """reference decision for a received word: (True, codeword) when a codeword lies within distance 1 (unique, d >= 3),
+    else (False, word)"""
+    n = gf2.CODES[code][0]
+    rs = refset(code)
+    if w in rs:
+        return True, w
+    for i in range(n):
+        if (w ^ (1 << i)) in rs:
+            return True, w ^ (1 << i)
+    return False, w
+
+
+def oracle_reuse(case):
+    """case = {code, words: [int...], steps: [[word index, "reuse"|"fresh"|"numpy"], ...]}.  A receiver keeps ONE bitarray as
+    its receive buffer: "reuse" overwrites that buffer in place with the word and calls check_and_correct on it, "fresh"
+    passes a new bitarray, "numpy" goes through correct_numpy_array.  Whatever happened before, every call must give the
+    reference decision for ITS word (single error repaired to the original codeword, codeword unchanged, otherwise
+    reported uncorrectable and unchanged)."""
+    code = case["code"]
+    n = gf2.CODES[code][0]
+    cls = lib(code)
+    buf = bitarray(n)
+    buf.setall(0)
+    for wi, how in case["steps"]:
+        w = case["words"][wi]
+        exp_ok, exp_w = _nearest(code, w)
+        if how == "numpy":
+            st, arr = call(cls.correct_numpy_array, numpy.array(_bits(w, n).tolist()))
+            got = gf2.bits_to_int([int(x) for x in numpy.asarray(arr).tolist()])
+            if got != exp_w:
+                raise Fail("numpy_repair_independent_of_history", format(got, f"0{n}b"), format(exp_w, f"0{n}b"), how)
+            continue
+        if how == "reuse":
+            buf[:] = _bits(w, n)
+            arg = buf
+        else:
+            arg = _bits(w, n)
+        st, res = call(cls.check_and_correct, arg)
+        ok, word = res
+        got = gf2.bits_to_int(bitarray(word).tolist())
+        if bool(ok) != exp_ok or got != exp_w:
+            raise Fail("repair_independent_of_history", [bool(ok), format(got, f"0{n}b")], [exp_ok, format(exp_w, f"0{n}b")], how)
+
+
+def drv_reuse(ctx: Ctx, sub: SubCheck):
+    from hypothesis import strategies as st
+
+    # deterministic core: (single error in the buffer, buffer reused for another word, first word again) for every code
+    rng = ctx.rng("reuse")
+    det = []
+    for code in HAMMING:
+        n, k = gf2.CODES[code][0], gf2.CODES[code][1]
+        for _ in range(ctx.pick(30, 300)):
+            cw1 = gf2.bits_to_int(gf2.ref_encode(code, gf2.int_to_bits(rng.getrandbits(k), k)))
+            cw2 = gf2.bits_to_int(gf2.ref_encode(code, gf2.int_to_bits(rng.getrandbits(k), k)))
+            i, j, l = rng.randrange(n), rng.randrange(n), rng.randrange(n)
+            w1 = cw1 ^ (1 << i)
+            w2 = cw2 ^ (1 << j)
+            w3 = cw2 ^ (1 << j) ^ (1 << l) if l != j else cw2  # double error (or codeword)
+            for second in (1, 2):
+                for third in ("fresh", "numpy", "reuse"):
+                    det.append({"code": code, "words": [w1, w2, w3], "steps": [[0, "reuse"], [second, "reuse"], [0, third], [0, "fresh"]]})
+            det.append({"code": code, "words": [w1, w2, w3], "steps": [[0, "reuse"], [0, "reuse"], [0, "numpy"]]})
+
+    def work(chunk, t: Tally):
+        for c in chunk:
+            ctx.run_case(sub.name, oracle_reuse, c, t)
+            t.case(sub.name, key=c, nontrivial=True, cls="directed:" + c["code"])
+
+    ctx.shards(work, [det[i::16] for i in range(16)])
+
+    def strat_for(code):
+        n, k = gf2.CODES[code][0], gf2.CODES[code][1]
+
+        def mk(msgs, errs, steps):
+            words = []
+            for m, e in zip(msgs, errs):
+                cw = gf2.bits_to_int(gf2.ref_encode(code, gf2.int_to_bits(m, k)))
+                for pos in e:
+                    cw ^= 1 << pos
+                words.append(cw)
+            return {"code": code, "words": words, "steps": steps}
+
+        return st.builds(
+            mk,
+            st.lists(st.integers(0, (1 << k) - 1), min_size=3, max_size=3),
+            st.lists(st.lists(st.integers(0, n - 1), min_size=0, max_size=2), min_size=3, max_size=3),
+            st.lists(st.tuples(st.integers(0, 2), st.sampled_from(["reuse", "reuse", "fresh", "numpy"])).map(list), min_size=2, max_size=7),
+        )
+
+    strat = st.one_of(*[strat_for(c) for c in HAMMING])
+
+    def rec(c, tt):
+        idx = [x[0] for x in c["steps"]]
+        tt.case(sub.name, key=c, nontrivial=len(set(idx)) < len(idx) and any(h == "reuse" for _, h in c["steps"]), cls="random:" + c["code"])
+
+    def hyp(shard, t: Tally):
+        ctx.hypothesis(sub.name, strat, oracle_reuse, ctx.pick(120, 2000), tally=t, shard=shard, record=rec)
+
+    ctx.shards(hyp, list(range(16)))
+
+
+
 SUBCHECKS = [
     SubCheck("encode", oracle_encode, drv_encode, "all 2^k messages: systematic, equals reference cyclic code, passes checker"),
     SubCheck("check_word", oracle_check_word, drv_check_word, "all 2^n words: checker accepts exactly the 2^k reference codewords"),
     SubCheck("min_distance", oracle_min_distance, drv_min_distance, "all pairs of library codewords: distance >= advertised d"),
     SubCheck("single_error", oracle_single_error, drv_single_error, "all Hamming codewords x all single-bit errors repaired (bitarray and numpy paths)"),
     SubCheck("error_free", oracle_error_free, lambda ctx, sub: None, "all Hamming codewords pass check_and_correct unchanged (driven by single_error)"),
+    SubCheck("reuse", oracle_reuse, drv_reuse, "histories with a reused receive buffer / repeated words through both repair entry points: every call gives the reference decision for its own word"),
     SubCheck("double_error_16_11_4", oracle_double_error_16_11, drv_double_error, "Hamming(16,11,4): all codewords x all 120 double errors reported uncorrectable, word unchanged"),
 ]
 PREDICATES = {}
